@@ -14,7 +14,8 @@
    (Rows.v), and the aged plan is persisted as the list of Update* calls the code makes.
 
    Specification (Coercion.Select.SelectSpec, written over the plan tree without the row machinery):
-   [is_running], [latest_activity] / [is_stale] (strict, as time.Before), [close_plan] (the exact
+   [is_running], [latest_activity] (the latest start / end of any object and of any attempt of any
+   action) / [is_stale] (strict, as time.Before), [close_plan] (the exact
    post-state of a closed plan), [nothing_running].
 
    Premise [keys_unique]: no two rows of the same table of the store carry the same id (the primary
@@ -112,19 +113,22 @@ Theorem c11_monitor_predicates :
 Proof. exact monitor_predicates. Qed.
 Print Assumptions c11_monitor_predicates.
 
-(* ---- not vacuous: a store of five plans (never started; terminal with a stray Running child; Running
-   and one tick too old, with Running block / sequence / action / check group / check action and a
-   recent attempt; Running and exactly maxAge old; Running with no recorded time) ---- *)
+(* ---- not vacuous: a store of six plans (never started; terminal with a stray Running child; Running
+   and one tick too old, with Running block / sequence / action / check group / check action; Running
+   and exactly maxAge old; Running with no recorded time; Running with old states and a recent attempt) ---- *)
 Example c11_ex_keys : keys_unique ex_store.
 Proof. exact ex_keys_unique. Qed.
-Example c11_ex_resumed : snd (select ex_now ex_stamp ex_maxage true ex_store) = [40%N].
+Example c11_ex_resumed : snd (select ex_now ex_stamp ex_maxage true ex_store) = [40%N; 60%N].
 Proof. vm_compute. reflexivity. Qed.
 Example c11_ex_store_after :
   fst (select ex_now ex_stamp ex_maxage true ex_store) =
-  [ex_fresh; ex_done; close_plan ex_stamp ex_aged; ex_live; close_plan ex_stamp ex_zero].
+  [ex_fresh; ex_done; close_plan ex_stamp ex_aged; ex_live; close_plan ex_stamp ex_zero; ex_retry].
 Proof. vm_compute. reflexivity. Qed.
 Example c11_ex_boundary :
   stale ex_now ex_maxage ex_live = false /\ stale (ex_now + 1) ex_maxage ex_live = true.
+Proof. vm_compute. split; reflexivity. Qed.
+Example c11_ex_attempts_are_activity :
+  last_update ex_retry = 9990%Z /\ stale ex_now ex_maxage ex_retry = false.
 Proof. vm_compute. split; reflexivity. Qed.
 Example c11_ex_r1_plan_row_only_leaves_running :
   running_rows (persist [ex_aged] (writes_plan_only (age_out ex_stamp ex_aged))) = 5 /\
